@@ -158,31 +158,99 @@ def part_text_classes(ctx):
     return cls
 
 
+TEXT_CLASSES = ("empty", "all-digits", "digit-start", "other")   # partition of the possible part texts
+
+
+def eval_text_pred(c, cls):
+    """value of a predicate on `part.text` for every text of class `cls` (True/False) or None if not uniform/unknown"""
+    k = c.get("k")
+    if k == "paren":
+        return eval_text_pred(c["e"], cls)
+    if k == "un" and c["op"] == "!":
+        v = eval_text_pred(c["e"], cls)
+        return None if v is None else not v
+    if k == "bin" and c["op"] in ("&&", "||"):
+        l, r = eval_text_pred(c["l"], cls), eval_text_pred(c["r"], cls)
+        if c["op"] == "&&":
+            if l is False or r is False:
+                return False
+            return True if (l is True and r is True) else None
+        if l is True or r is True:
+            return True
+        return False if (l is False and r is False) else None
+    if k == "mcall":
+        recv = canon(c["r"])
+        digit_closure = bool(c["a"]) and c["a"][0].get("k") == "closure" and "is_ascii_digit" in canon(c["a"][0])
+        if c["m"] == "is_empty" and recv == "part.text":
+            return cls == "empty"
+        if c["m"] == "starts_with" and recv == "part.text" and digit_closure:
+            return cls in ("all-digits", "digit-start")
+        if c["m"] == "all" and recv in ("part.text.bytes()", "part.text.chars()") and digit_closure:
+            return cls in ("empty", "all-digits")
+        if c["m"] == "any" and recv in ("part.text.bytes()", "part.text.chars()") and digit_closure:
+            return None if cls in ("digit-start", "other") else cls == "all-digits"
+    return None
+
+
+def branches_of(stmt_if):
+    """[(cond|None, block)] of an if / else-if / else chain"""
+    out, e = [], stmt_if
+    while e is not None and e.get("k") == "if":
+        out.append((e["c"], e["t"]))
+        e = e.get("e")
+    if e is not None:
+        out.append((None, e if e.get("k") == "block" else {"k": "block", "s": [{"k": "expr", "e": e}]}))
+    return out
+
+
 def r27b(ctx, run):
     fn = ctx.syn.fn("add_part", "codegen/src/mangle.rs")
     top = [s for s in fn.body["s"] if s["k"] == "expr" and s["e"]["k"] == "if"]
     if len(top) != 1:
-        raise LookupError("add_part is not a single if/else")
+        raise LookupError("add_part is not a single if/else chain")
     iff = top[0]["e"]
-    cond = canon(iff["c"])
-    digit_start = cond in ("part.text.starts_with(|ch: char| ch.is_ascii_digit())", "part.text.starts_with(|ch| ch.is_ascii_digit())")
-    a = abstract_pushes(iff["t"])
-    b = abstract_pushes(iff["e"]) if iff.get("e") else []
-    run.ok(fn.site(iff["ln"]), "add_part branches: [%s] %s | else %s" % (cond[:50], a, b))
-    plain_ok = b == [("Num", "part.text.len()"), ("Text", "")]
-    run.check(plain_ok, fn.site(iff["ln"]), "plain branch = Num(len) Text", "add_part", "plain", fn.file, iff["ln"],
-              "the plain branch must emit the text length followed by the text; found %s" % b)
-    if not digit_start:
-        run.finding("add_part", "escape-condition", fn.file, iff["ln"],
-                    "cannot establish decodability: escape condition `%s` is not the digit-start test the format analysis understands" % cond)
-        return
-    # escaped branch must be Num(len + k) prefix{k} Text
-    prefix = [x for x in a[1:-1]]
-    k = len(prefix)
-    esc_ok = len(a) >= 3 and a[0] == ("Num", "(part.text.len() + %d)" % k) and a[-1] == ("Text", "") and all(x[0] in ("LowerCode", "Lit") for x in prefix)
-    run.check(esc_ok, fn.site(iff["ln"]), "escaped branch = Num(len+%d) prefix Text" % k, "add_part", "escaped", fn.file, iff["ln"],
-              "the digit-start branch must emit len+|prefix|, the prefix, then the text; found %s" % a)
-    if not esc_ok:
+    chain = branches_of(iff)
+    emitted = {}
+    for cls in TEXT_CLASSES:
+        taken = None
+        for cond, blk in chain:
+            v = True if cond is None else eval_text_pred(cond, cls)
+            if v is None:
+                run.finding("add_part", "escape-condition", fn.file, iff["ln"], "cannot establish decodability: the condition `%s` is not a predicate on the "
+                            "text's digit structure that the format analysis understands (for %s texts)" % (canon(cond)[:80], cls))
+                return
+            if v:
+                taken = blk
+                break
+        emitted[cls] = abstract_pushes(taken) if taken is not None else []
+    run.ok(fn.site(iff["ln"]), "add_part emits per text class: %s" % emitted)
+    # every class: self-delimiting form Num(len + k) . k prefix chars . Text, first payload character not a digit
+    esc_prefix = None
+    for cls in TEXT_CLASSES:
+        a = emitted[cls]
+        if cls == "empty":
+            continue   # no part kind has an empty text (names, path components and ids are non-empty)
+        prefix = a[1:-1]
+        k = len(prefix)
+        want_num = "part.text.len()" if k == 0 else "(part.text.len() + %d)" % k
+        shaped = len(a) >= 2 and a[0] == ("Num", want_num) and a[-1] == ("Text", "") and all(x[0] in ("LowerCode", "Lit") for x in prefix)
+        if not shaped:
+            run.finding("add_part", "not-length-prefixed:%s" % cls, fn.file, iff["ln"],
+                        "a part whose text is %s is emitted as %s: not `length . payload`, so where it ends depends on the next character — the parts that follow "
+                        "begin with the digits of their own length, and two different part lists run together into one symbol" % (cls, a))
+            continue
+        first_digit = (k == 0 and cls in ("all-digits", "digit-start")) or (k > 0 and prefix[0][0] == "Lit" and prefix[0][1].strip("'\"")[:1].isdigit())
+        if first_digit:
+            run.finding("add_part", "payload-starts-with-digit:%s" % cls, fn.file, iff["ln"],
+                        "a %s text is emitted as length immediately followed by a digit of the payload: the length cannot be read back" % cls)
+            continue
+        run.ok(fn.site(iff["ln"]), "%s text -> %s (length-prefixed, payload starts with a non-digit)" % (cls, a))
+        if k > 0:
+            esc_prefix = prefix
+    plain = emitted["other"]
+    run.check(plain == [("Num", "part.text.len()"), ("Text", "")], fn.site(iff["ln"]), "plain branch = Num(len) Text", "add_part", "plain", fn.file, iff["ln"],
+              "a text that does not start with a digit must be emitted as its length followed by the text; found %s" % plain)
+    if esc_prefix is None:
         return
     # decodability per kind: a reader sees Num n then n chars P.  P = prefix+t (t digit-start) or P = t (t not digit-start).
     # ambiguous iff the class has both a digit-start member and a member `prefix + digit-start member`.
